@@ -172,7 +172,7 @@ PROPS = {
         assumptions=['frames do not begin with the bytes "clear" (indistinguishable from the marker in the wire format itself)', 'frame size >= 5'],
     ),
     'C11': dict(
-        lean=['Props.C11', 'Props.FactsWiring', 'Props.FactsProc', 'Props.Pipeline'],
+        lean=['Props.C11', 'Props.FactsWiring', 'Props.FactsProc', 'Props.Pipeline', 'Props.C11Thr'],
         streams=['e2e', 'throttle'],
         rule=E2E_RULE,
         trusted=E2E_TRUSTED + ['go-cptv compression + gzip: validated by decoding every produced file with the standard reader, not proved'],
